@@ -27,7 +27,11 @@ META = {
             "disabled_algorithms, x every non-empty set of server host keys; the all-categories "
             "diagonal; each role against a harness-built raw KEXINIT whose list ranges over all "
             "ordered sub-lists of universe + an unknown name, per wire direction, with ext-info / "
-            "kex-strict markers placed first, last and echoed; a subset re-run as live handshakes.",
+            "kex-strict markers placed first, last and echoed; a subset re-run as live handshakes. "
+            "Moduli-pack dimension: the server has no modulus pack (paramiko's default until "
+            "load_server_moduli succeeds) x every pair of ordered sub-lists of {gex-sha256, curve25519, "
+            "gex-sha1} (thorough: + group14-sha256) as kex preferences, judged on the KEXINITs really "
+            "sent, plus 16 live handshakes (kex lists over {gex-sha256, curve25519}).",
     "note": "un-started Transport objects driven single-threaded through _send_kex_init/_parse_kex_init; "
             "live subset runs two real transports under the cooperative scheduler; universes are "
             "3-4 names per category, not the full algorithm tables",
@@ -59,6 +63,12 @@ DEFAULTS = {
 }
 
 
+NOPACK_TAG = ":server-without-moduli-pack"
+# kex universe of the moduli-pack dimension: group-exchange names around one other method
+NOPACK_KEX = ["diffie-hellman-group-exchange-sha256", "curve25519-sha256@libssh.org",
+              "diffie-hellman-group-exchange-sha1", "diffie-hellman-group14-sha256"]
+
+
 def universe(cat, tier):
     u = UNIVERSE[cat]
     return u[:3] if tier == "quick" else u
@@ -69,7 +79,8 @@ def sublists(u):
 
 
 # ---------------------------------------------------------------------------------- building
-def make_transport(role, cfg, method, keyset=("ed25519", "ecdsa-256", "rsa"), strict=True):
+def make_transport(role, cfg, method, keyset=("ed25519", "ecdsa-256", "rsa"), strict=True,
+                   moduli=True):
     """cfg: dict config-cat -> ordered list.  method: 'opts' (SecurityOptions only) |
     'mixed' (SecurityOptions holds a permutation of the whole universe, disabled_algorithms removes
     the rest) | 'disabled' (class defaults + disabled_algorithms; only for lists in default order)."""
@@ -96,7 +107,8 @@ def make_transport(role, cfg, method, keyset=("ed25519", "ecdsa-256", "rsa"), st
             setattr(so, "compression", tuple(UNIVERSE["compression"]))
     if role == "server":
         t.server_mode = True
-        t._modulus_pack = K.moduli_pack()
+        if moduli:
+            t._modulus_pack = K.moduli_pack()
         for k in keyset:
             t.add_server_key(F.key(k))
     t._verif_disabled = disabled
@@ -143,21 +155,22 @@ FIELD_CAT = {"kex": "kex", "hostkey": "keys", "local_cipher": "ciphers", "remote
              "remote_comp": "compression"}
 
 
-def judge_side(acc, role, err, view, disabled, C, Sv, what, replay):
-    """Compare one side's outcome with the reference on the wire lists.  Returns True if fine."""
+def judge_side(acc, role, err, view, disabled, C, Sv, what, replay, tag=""):
+    """Compare one side's outcome with the reference on the wire lists.  Returns True if fine.
+    tag: environment class appended to every key (e.g. ':server-without-moduli-pack')."""
     agreed, failed = N.negotiate(C, Sv)
     ok = True
     if failed:
         if not isinstance(err, IncompatiblePeer):
             acc.violation("no-common-algorithm-not-reported-as-IncompatiblePeer:%s:%s:%s"
-                          % (role, failed[0], K.exc_name(err) or "accepted"),
+                          % (role, failed[0], K.exc_name(err) or "accepted") + tag,
                           {"what": what, "failed": failed, "got": repr(err), "view": view,
                            "client": C, "server": Sv}, replay)
             ok = False
         return ok
     if err is not None:
         acc.violation("negotiation-fails-although-every-category-has-a-common-algorithm:%s:%s"
-                      % (role, K.exc_name(err)),
+                      % (role, K.exc_name(err)) + tag,
                       {"what": what, "error": repr(err), "client": C, "server": Sv}, replay)
         return False
     exp = expected_view(agreed, role)
@@ -165,12 +178,12 @@ def judge_side(acc, role, err, view, disabled, C, Sv, what, replay):
         got = view[field]
         if got != want:
             kind = "marker-selected" if (got and N.is_marker(str(got))) else "not-clients-first-common"
-            acc.violation("%s:%s:%s" % (kind, role, field),
+            acc.violation("%s:%s:%s" % (kind, role, field) + tag,
                           {"what": what, "field": field, "got": got, "want": want,
                            "client": C, "server": Sv}, replay)
             ok = False
         if got is not None and got in disabled.get(FIELD_CAT[field], ()):
-            acc.violation("locally-disabled-algorithm-agreed:%s:%s" % (role, FIELD_CAT[field]),
+            acc.violation("locally-disabled-algorithm-agreed:%s:%s" % (role, FIELD_CAT[field]) + tag,
                           {"what": what, "field": field, "got": got,
                            "disabled": disabled.get(FIELD_CAT[field])}, replay)
             ok = False
@@ -188,18 +201,20 @@ def nontrivial(acc, C, Sv, wire_cats):
 def case_real_real(case, acc):
     """Both sides real transports."""
     ccfg, scfg, cm, sm, keyset = case["ccfg"], case["scfg"], case["cm"], case["sm"], case["keys"]
+    moduli = case.get("moduli", True)
+    tag = "" if moduli else NOPACK_TAG
     tc = make_transport("client", ccfg, cm)
-    ts = make_transport("server", scfg, sm, keyset=keyset)
+    ts = make_transport("server", scfg, sm, keyset=keyset, moduli=moduli)
     pc, ps = send_kexinit(tc), send_kexinit(ts)
     C, Sv = N.parse_kexinit(pc), N.parse_kexinit(ps)
     ec = feed_kexinit(tc, ps)
     es = feed_kexinit(ts, pc)
     acc.ev(2)
     what = {"mode": "real-real", "client_cfg": ccfg, "server_cfg": scfg, "methods": [cm, sm],
-            "server_keys": list(keyset)}
+            "server_keys": list(keyset), "server_has_moduli_pack": moduli}
     replay = {"kind": "real_real", "case": case}
-    ok1 = judge_side(acc, "client", ec, K.agreement(tc), tc._verif_disabled, C, Sv, what, replay)
-    ok2 = judge_side(acc, "server", es, K.agreement(ts), ts._verif_disabled, C, Sv, what, replay)
+    ok1 = judge_side(acc, "client", ec, K.agreement(tc), tc._verif_disabled, C, Sv, what, replay, tag)
+    ok2 = judge_side(acc, "server", es, K.agreement(ts), ts._verif_disabled, C, Sv, what, replay, tag)
     # both peers agree with each other (implied by the reference, stated for the record)
     if ec is None and es is None and ok1 and ok2:
         a, b = K.agreement(tc), K.agreement(ts)
@@ -207,10 +222,12 @@ def case_real_real(case, acc):
                 a["remote_mac"], a["local_comp"], a["remote_comp"]) != (
                 b["kex"], b["hostkey"], b["remote_cipher"], b["local_cipher"], b["remote_mac"],
                 b["local_mac"], b["remote_comp"], b["local_comp"]):
-            acc.violation("peers-disagree", {"what": what, "client": a, "server": b}, replay)
+            acc.violation("peers-disagree" + tag, {"what": what, "client": a, "server": b}, replay)
     cats = [w for c in ccfg for w in WIRE_OF[c]]
     nontrivial(acc, C, Sv, cats)
     acc.count("real_real_pairs")
+    if not moduli:
+        acc.count("server_without_moduli_pack_pairs")
     acc.count("outcome_" + ("fail" if N.negotiate(C, Sv)[1] else "agree"))
     return C, Sv
 
@@ -274,17 +291,21 @@ def case_live(case, acc):
     """Two live transports, full handshake; same judge on the recorded wire KEXINITs."""
     from vmc import sched as S  # noqa
     ccfg, scfg = case["ccfg"], case["scfg"]
+    moduli = case.get("moduli", True)
+    tag = "" if moduli else NOPACK_TAG
+    U = UNIVERSE if moduli else dict(UNIVERSE, kex=NOPACK_KEX)
 
     def body(s):
-        dis_c = {c: [n for n in UNIVERSE[c] if n not in l] for c, l in ccfg.items()}
-        dis_s = {c: [n for n in UNIVERSE[c] if n not in l] for c, l in scfg.items()}
+        dis_c = {c: [n for n in U[c] if n not in l] for c, l in ccfg.items()}
+        dis_s = {c: [n for n in U[c] if n not in l] for c, l in scfg.items()}
         p = F.Pair(hostkeys=case["keys"], tclass=K.RecTransport,
                    client_kw={"disabled_algorithms": dis_c}, server_kw={"disabled_algorithms": dis_s})
-        p.ts._modulus_pack = K.moduli_pack()
+        if moduli:
+            p.ts._modulus_pack = K.moduli_pack()
         for t, cfg in ((p.tc, ccfg), (p.ts, scfg)):
             so = t.get_security_options()
             for cat, lst in cfg.items():
-                rest = [n for n in UNIVERSE[cat] if n not in lst]
+                rest = [n for n in U[cat] if n not in lst]
                 setattr(so, OPT_ATTR[cat], tuple(lst + rest[::-1]))
         err = None
         try:
@@ -311,26 +332,28 @@ def case_live(case, acc):
     acc.count("live_handshakes")
     replay = {"kind": "live", "case": case}
     if ex.outcome != "ok" or not ex.value["ck"] or not ex.value["sk"]:
-        acc.violation("live-handshake-harness-outcome:%s" % ex.outcome,
+        acc.violation("live-handshake-harness-outcome:%s" % ex.outcome + tag,
                       {"case": case, "error": repr(ex.error)}, replay)
         return
     v = ex.value
     C, Sv = N.parse_kexinit(v["ck"][0]), N.parse_kexinit(v["sk"][0])
     agreed, failed = N.negotiate(C, Sv)
-    what = {"mode": "live", "client_cfg": ccfg, "server_cfg": scfg}
+    what = {"mode": "live", "client_cfg": ccfg, "server_cfg": scfg, "server_has_moduli_pack": moduli}
+    if not moduli:
+        acc.count("server_without_moduli_pack_live_handshakes")
     empty = dict.fromkeys(("kex", "hostkey", "local_cipher", "remote_cipher", "local_mac",
                            "remote_mac", "local_comp", "remote_comp"))
     if failed:
-        judge_side(acc, "client", v["cerr"], v["cview"] or empty, v["dis"][0], C, Sv, what, replay)
-        judge_side(acc, "server", v["serr"], v["sview"] or empty, v["dis"][1], C, Sv, what, replay)
+        judge_side(acc, "client", v["cerr"], v["cview"] or empty, v["dis"][0], C, Sv, what, replay, tag)
+        judge_side(acc, "server", v["serr"], v["sview"] or empty, v["dis"][1], C, Sv, what, replay, tag)
     else:
         # a completed negotiation: both views must exist and match the reference
         cerr = v["cerr"] if v["cview"] is None else None
         serr = v["serr"] if v["sview"] is None else None
-        judge_side(acc, "client", cerr, v["cview"] or empty, v["dis"][0], C, Sv, what, replay)
-        judge_side(acc, "server", serr, v["sview"] or empty, v["dis"][1], C, Sv, what, replay)
+        judge_side(acc, "client", cerr, v["cview"] or empty, v["dis"][0], C, Sv, what, replay, tag)
+        judge_side(acc, "server", serr, v["sview"] or empty, v["dis"][1], C, Sv, what, replay, tag)
         if not v["authed"]:
-            acc.violation("live-handshake-did-not-complete-after-agreement",
+            acc.violation("live-handshake-did-not-complete-after-agreement" + tag,
                           {"case": case, "cerr": repr(v["cerr"]), "serr": repr(v["serr"])}, replay)
     nontrivial(acc, C, Sv, [w for c in ccfg for w in WIRE_OF[c]])
 
@@ -378,8 +401,25 @@ def gen_cases(tier):
                 for mk in ("first", "last", "echo-first", "echo-only"):
                     cases.append({"k": "raw", "role": role, "wire_cat": "kex", "local": local,
                                   "peer": peer, "markers": mk})
+    # F. moduli-pack dimension: a server that has no modulus pack (load_server_moduli never called /
+    # failed - paramiko's default) cannot do group exchange; whatever it then advertises, both
+    # sides must still end up with the client's first name that is in the server's KEXINIT
+    un = NOPACK_KEX[:3] if tier == "quick" else NOPACK_KEX
+    subs = sublists(un)
+    for lc in subs:
+        for ls in subs:
+            methods = [("opts", "opts")]
+            if in_default_order("kex", lc) and in_default_order("kex", ls):
+                methods.append(("disabled", "disabled"))
+            for cm, sm in methods:
+                cases.append({"k": "rr", "ccfg": {"kex": lc}, "scfg": {"kex": ls}, "cm": cm, "sm": sm,
+                              "keys": ("ed25519", "ecdsa-256", "rsa"), "moduli": False})
     # E. live subset
     live = []
+    for lc in [x for x in sublists(NOPACK_KEX[:2]) if x]:
+        for ls in [x for x in sublists(NOPACK_KEX[:2]) if x]:
+            live.append({"k": "live", "ccfg": {"kex": lc}, "scfg": {"kex": ls},
+                         "keys": ("ed25519", "ecdsa-256", "rsa"), "moduli": False})
     for cat in CONFIG_CATS:
         u2 = universe(cat, tier)[:2] if tier == "quick" else universe(cat, tier)[:3]
         if cat == "kex":
@@ -420,7 +460,9 @@ def main(tier):
         ["3-name (quick) / 4-name (thorough) universes per category; other categories at defaults",
          "peer of the raw cases is a harness-built KEXINIT; seqno 0 is supplied by the harness",
          "paramiko configures cipher/MAC/compression per transport, not per direction: per-direction "
-         "asymmetry is exercised through the raw peer only"])
+         "asymmetry is exercised through the raw peer only",
+         "servers have a modulus pack (fixtures/moduli) except in the moduli-pack dimension, where the "
+         "first KEXINIT of a pack-less server is judged (keys end in :server-without-moduli-pack)"])
     cases, live = gen_cases(tier)
     items = enum.chunks(cases, 256) + enum.chunks(live, 32)
     ck.merge(core.pmap(items, run_chunk))
